@@ -43,7 +43,7 @@ func c17Cells(tier string) []Cell {
 			}
 
 			for _, p := range progs {
-				for _, adv := range []string{"", "I-1ns", "I"} {
+				for _, adv := range []string{"", "I-1ns", "I", "2xI"} {
 					cells = append(cells, Cell{ID: c17Cell{Mode: "conc", Interval: iv, Callbacks: cb, Threads: p, Adv: adv}.id()})
 				}
 			}
@@ -56,6 +56,8 @@ func c17Cells(tier string) []Cell {
 type callIDKey struct{}
 
 type c17h struct {
+	runStart map[int]time.Time // virtual instant at which the first callback of a call started
+	runOrder []int             // calls in the order their runs started
 	inv      *cache.Invalidator
 	log      []string // "cb<j>@call<id>"
 	inflight int
@@ -67,7 +69,7 @@ type c17h struct {
 func newC17(cc c17Cell, points bool) *c17h {
 	vclock.Reset()
 
-	h := &c17h{inv: &cache.Invalidator{SkipInterval: time.Duration(cc.Interval) * time.Second}}
+	h := &c17h{inv: &cache.Invalidator{SkipInterval: time.Duration(cc.Interval) * time.Second}, runStart: map[int]time.Time{}}
 
 	for j := 0; j < cc.Callbacks; j++ {
 		j := j
@@ -75,6 +77,11 @@ func newC17(cc c17Cell, points bool) *c17h {
 			h.inflight++
 			if h.inflight > 1 {
 				h.overlap = true
+			}
+
+			if id, ok := ctx.Value(callIDKey{}).(int); ok && j == 0 {
+				h.runStart[id] = vclock.NowQuiet()
+				h.runOrder = append(h.runOrder, id)
 			}
 
 			if points {
@@ -271,9 +278,13 @@ func c17Conc(cc c17Cell, env *Env) CellResult {
 
 		if cc.Adv != "" {
 			vsched.SpawnThread("clock", func() {
-				if cc.Adv == "I" {
+				switch cc.Adv {
+				case "I":
 					vclock.Advance(iv)
-				} else {
+				case "2xI":
+					vclock.Advance(iv)
+					vclock.Advance(iv)
+				default:
 					vclock.Advance(iv - time.Nanosecond)
 				}
 			})
@@ -323,10 +334,22 @@ func c17Conc(cc c17Cell, env *Env) CellResult {
 			}
 		}
 
+		// the runs of consecutive accepted calls start at least SkipInterval apart
+		for i := 1; i < len(h.runOrder); i++ {
+			a, b := h.runOrder[i-1], h.runOrder[i]
+			if d := h.runStart[b].Sub(h.runStart[a]); d < iv {
+				bad("run-spacing", fmt.Sprintf("accepted call %d started its callbacks only %v after accepted call %d started its own (SkipInterval %v)", b, d, a, iv))
+			}
+		}
+
 		if cc.Callbacks > 0 {
 			max := 1
 			if cc.Adv == "I" {
 				max = 2
+			}
+
+			if cc.Adv == "2xI" {
+				max = 3
 			}
 
 			if accepted < 1 || accepted > max {
